@@ -5,6 +5,18 @@ HERE = os.path.dirname(os.path.dirname(os.path.abspath(__file__)))
 
 # id -> (level text, level note, technique, design_ref)
 CHECKS = {
+ 'C16': ("Lean 4 proof: for the executable model of VcdGenerationPass (net table with shared symbols, base-94 symbol generator, header values, change compression with the code's "
+         "last_values indexing, clock lines), reading the dump of any trace gives back exactly the sampled value of every non-clock net and of every signal mapped to it "
+         "(replay_dump, replay_dump_zero_init, replay_signal) for any number of nets, traces that revisit values, constant nets and cycle 0, the reader knowing only the $var "
+         "declarations and the file's lines. Further: the clock symbol rises at 100t and falls at 100t+50 exactly once per cycle, signals sharing a net read equal values, "
+         "to_vcd_str is injective and parses back, symbols are distinct, the text-wave record parses back to the samples. Tied to /repo by differential execution on generated "
+         "hierarchical RTL designs simulated with DefaultPassGroup(vcdwave=..., textwave=True): the file, parsed by an independent reader, must equal the model's dump token for "
+         "token, and a Python hold-until-changed replay must equal the values sampled at the dump point for every signal of every component.",
+         "The proof is about the net-level model; how a design becomes the net table is read back from the file header and cross-checked against get_all_value_nets(). The main "
+         "theorem carries the hypothesis QuirkSafe (equal defaults on equal-width neighbouring nets behind the clock) because the model reproduces the last_values indexing slip of "
+         "dump_vcd_inner; it is discharged for all-zero defaults (the only case in pymtl3) and shown necessary by quirk_needs_equal_defaults. PrintTextWavePass modelled only as "
+         "per-cycle bin strings. Pure RTL designs only. Sampling point validated every cycle against sim_eval_combinational() plus a read.",
+         "Lean 4 proof (replay of dump = trace, by induction over the trace) + differential correspondence with an independent VCD reader", "DESIGN.md §5 C16"),
  'C14': ("Lean 4 proofs over an executable model of PyMTL3's naming (NamedObject.__setattr_for_elaborate__, Signal.__getattr__/__getitem__, clk/reset injection) show, for "
          "every construction description and every statically or lazily created object, that evaluating the full name returns that very object (resolve_name), that names and "
          "repr strings are unique (name_injective, repr_unique, render_injective), that parent / level / host / top-level signal / field name are exactly the values read off the "
